@@ -23,12 +23,34 @@ ListVerdict(e, i) ==
            ELSE IF SameSet(le, li) THEN "findall-multiplicity"
            ELSE "findall-content"
 
+\* C33: the soft-cut library.  C.q = cut(r(Args...), I); the indexed rules are the clauses of r/(n+1) whose first
+\* argument is the index.  Expected: the answers of the applicable rule with the smallest index (standard order).
+CutIndices(P, f) == { P[i].h.a[1] : i \in { j \in DOMAIN P : P[j].h.t = "c" /\ P[j].h.c = f /\ P[j].h.a[1].t = "i" } }
+RECURSIVE CutFrom(_, _, _, _)
+CutFrom(P, call, idxs, k) ==
+  IF k > Len(idxs) THEN [ ovf |-> FALSE, ans |-> << >> ]
+  ELSE LET rc == [ t |-> "c", c |-> call.c, a |-> <<idxs[k]>> \o call.a ]
+           r == Answers(P, rc, 400)
+       IN  IF r.ovf THEN r
+           ELSE IF r.ans # << >>
+                THEN [ ovf |-> FALSE,
+                       ans |-> [ i \in DOMAIN r.ans |->
+                                   [ t |-> "c", c |-> <<99,117,116>>,
+                                     a |-> << [ t |-> "c", c |-> call.c, a |-> Tail(r.ans[i].a) ], idxs[k] >> ] ] ]
+                ELSE CutFrom(P, call, idxs, k + 1)
+CutAnswers(P, q) ==
+  LET call == q.a[1]
+      idxs == SortUnique(SetToSeq(CutIndices(P, call.c)))
+  IN  CutFrom(P, call, idxs, 1)
+
 JudgeCase(C) ==
   LET b == IF C.mode = "builtin" THEN Builtin(C.q) ELSE [ sup |-> TRUE, sols |-> << >> ]
-      e == IF C.mode = "builtin" THEN [ ovf |-> ~b.sup, ans |-> b.sols ] ELSE Answers(C.prog, C.q, 400)
+      e == IF C.mode = "builtin" THEN [ ovf |-> ~b.sup, ans |-> b.sols ]
+           ELSE IF C.mode = "cut" THEN CutAnswers(C.prog, C.q)
+           ELSE Answers(C.prog, C.q, 400)
       why == IF e.ovf THEN "skip"
              ELSE IF C.impl.ok # 1 THEN "error-instead-of-answers"
-             ELSE IF C.mode = "set" THEN (IF SameSet(e.ans, C.impl.ans) THEN "" ELSE "answer-set")
+             ELSE IF C.mode = "set" \/ C.mode = "cut" THEN (IF SameSet(e.ans, C.impl.ans) THEN "" ELSE "answer-set")
              ELSE IF SameSeq(e.ans, C.impl.ans) THEN ""
              ELSE IF C.mode = "seq" THEN ListVerdict(e.ans, C.impl.ans)
              ELSE IF SameBag(e.ans, C.impl.ans) THEN "answer-order"
